@@ -366,6 +366,154 @@ class ElemFn(Fn):
 
 # ---------------------------------------------------------------- main
 
+# ---------------------------------------------------------------- Tree.__init__ / Tree.clear, class Attribute
+
+def lit_str(v):
+    return "[" + "; ".join(str(ord(c)) for c in v) + "]%N" if v else "(@nil N)"
+
+
+def is_self_attr(e, attr):
+    return is_attr(e, "self", attr)
+
+
+def tree_ctor(m, is_init):
+    """__init__(self, name) / clear(self): straight-line code over self.name / self.outmost / self.stack"""
+    stmts = [s for s in m.body if not (isinstance(s, ast.Expr) and isinstance(s.value, ast.Constant))]
+    lines = []
+    name_src = "name" if is_init else "self.name"
+    if is_init:
+        lines.append("let t := t_empty in")
+    else:
+        # ids restart only if everything allocated before becomes unreachable: outmost overwritten, stack emptied
+        txt = [ast.unparse(s) for s in stmts]
+        if not any(t.startswith("self.outmost = ") for t in txt) or "self.stack.clear()" not in txt:
+            raise Untranslatable("Tree.clear does not overwrite self.outmost and empty self.stack")
+        lines.append("let t := t_forget t in")
+    seen_name = not is_init
+    for s in stmts:
+        u = ast.unparse(s)
+        if is_init and u == "self.name = name":
+            seen_name = True
+            continue
+        if isinstance(s, ast.Assign) and len(s.targets) == 1 and is_self_attr(s.targets[0], "outmost") \
+                and isinstance(s.value, ast.Call) and getattr(s.value.func, "id", None) == "Root" and len(s.value.args) == 1 \
+                and not s.value.keywords and ast.unparse(s.value.args[0]) == name_src and seen_name:
+            lines.append("let '(__v, t) := t_new t (new_element KRoot name []) in")
+            lines.append("let t := set_outmost t __v in")
+            continue
+        if isinstance(s, (ast.Assign, ast.AnnAssign)) and s.value is not None and ast.unparse(s.value) == "deque()" \
+                and is_self_attr(s.targets[0] if isinstance(s, ast.Assign) else s.target, "stack"):
+            lines.append("let t := set_stack t [] in")
+            continue
+        if u == "self.stack.clear()":
+            lines.append("let t := set_stack t [] in")
+            continue
+        if u == "self.stack.append(self.outmost)":
+            lines.append("let t := stack_push t (t_outmost t) in")
+            continue
+        bad(s, "Tree.__init__/clear statement")
+    return "\n".join(lines) + "\nt"
+
+
+def attribute_defs(classes):
+    """Attribute.__getitem__ and Attribute.classes (pure functions of the dict)"""
+    out = []
+    g = method(classes, "Attribute", "__getitem__")
+    body = [s for s in g.body if not (isinstance(s, ast.Expr) and isinstance(s.value, ast.Constant))]
+    r = body[0].value if len(body) == 1 and isinstance(body[0], ast.Return) else None
+    if not (isinstance(r, ast.Call) and is_attr(r.func, "self", "get") and len(r.args) == 2 and not r.keywords
+            and [a.arg for a in g.args.args] == ["self", "key"] and getattr(r.args[0], "id", None) == "key"
+            and isinstance(r.args[1], ast.Constant) and isinstance(r.args[1].value, (str, type(None)))):
+        raise Untranslatable("Attribute.__getitem__: " + ast.unparse(g)[:200])
+    default = "None" if r.args[1].value is None else f"(Some {lit_str(r.args[1].value)})"
+    out.append("(* Attribute.__getitem__ *)")
+    out.append(f"Definition attr_getitem_src (self : attrs) (key : str) : option str :=\npy_get self key {default}.\n")
+    c = method(classes, "Attribute", "classes")
+    if [getattr(d, "id", None) for d in c.decorator_list] != ["property"]:
+        raise Untranslatable("Attribute.classes is not a plain property")
+    body = [s for s in c.body if not (isinstance(s, ast.Expr) and isinstance(s.value, ast.Constant))]
+    r = body[0].value if len(body) == 1 and isinstance(body[0], ast.Return) else None
+    # (self[K] or D).split()
+    ok = (isinstance(r, ast.Call) and isinstance(r.func, ast.Attribute) and r.func.attr == "split" and not r.args and not r.keywords
+          and isinstance(r.func.value, ast.BoolOp) and isinstance(r.func.value.op, ast.Or) and len(r.func.value.values) == 2)
+    if ok:
+        a, d = r.func.value.values
+        ok = (isinstance(a, ast.Subscript) and getattr(a.value, "id", None) == "self" and isinstance(a.slice, ast.Constant)
+              and isinstance(a.slice.value, str) and isinstance(d, ast.Constant) and isinstance(d.value, str))
+    if not ok:
+        raise Untranslatable("Attribute.classes: " + ast.unparse(c)[:200])
+    out.append("(* Attribute.classes *)")
+    out.append(f"Definition classes_src (self : attrs) : list str :=\nsplit_ws (ostr_or (attr_getitem_src self {lit_str(a.slice.value)}) {lit_str(d.value)}).\n")
+    return out
+
+
+# ---------------------------------------------------------------- <Class>.render (tag_overrides = None)
+
+OVERRIDE_GUARDS = ("tag_overrides and self.name in tag_overrides", "tag_overrides is not None and self.name in tag_overrides")
+
+
+def render_expr(e, binds):
+    """str-valued expression of a render method over the cell __c of self -> Gallina term; the join over the
+    children becomes a loop bound in `binds`"""
+    if isinstance(e, ast.BinOp) and isinstance(e.op, ast.Add):
+        return f"({render_expr(e.left, binds)}) ++ ({render_expr(e.right, binds)})"
+    if isinstance(e, ast.Constant) and isinstance(e.value, str):
+        return lit_str(e.value)
+    if is_self_attr(e, "data"):
+        return "(c_data __c)"
+    if is_self_attr(e, "name"):
+        return "(c_name __c)"
+    if is_self_attr(e, "attrs"):                       # only inside an f-string: str(self.attrs) = Attribute.__str__
+        return "(render_attrs (c_attrs __c))"
+    if isinstance(e, ast.IfExp) and is_self_attr(e.test, "attrs") and isinstance(e.body, ast.Constant) and isinstance(e.orelse, ast.Constant):
+        return f"(if truthy (c_attrs __c) then {lit_str(e.body.value)} else {lit_str(e.orelse.value)})"
+    if isinstance(e, ast.JoinedStr):
+        parts = []
+        for v in e.values:
+            if isinstance(v, ast.Constant):
+                parts.append(lit_str(v.value))
+            elif isinstance(v, ast.FormattedValue) and v.conversion == -1 and v.format_spec is None:
+                parts.append(render_expr(v.value, binds))
+            else:
+                bad(v, "f-string piece")
+        return " ++ ".join(parts) if parts else "(@nil N)"
+    # "".join(child.render(...) for child in self)
+    if isinstance(e, ast.Call) and isinstance(e.func, ast.Attribute) and e.func.attr == "join" and isinstance(e.func.value, ast.Constant) \
+            and e.func.value.value == "" and len(e.args) == 1 and isinstance(e.args[0], ast.GeneratorExp):
+        g = e.args[0]
+        c = g.elt
+        ok = (len(g.generators) == 1 and not g.generators[0].ifs and getattr(g.generators[0].iter, "id", None) == "self"
+              and isinstance(g.generators[0].target, ast.Name) and isinstance(c, ast.Call) and isinstance(c.func, ast.Attribute)
+              and c.func.attr == "render" and getattr(c.func.value, "id", None) == g.generators[0].target.id and not c.args
+              and all((k.arg is None and getattr(k.value, "id", None) == "kwargs")
+                      or (k.arg == "tag_overrides" and getattr(k.value, "id", None) == "tag_overrides") for k in c.keywords))
+        if not ok or binds:
+            bad(e, "join over the children")
+        v = g.generators[0].target.id
+        binds.append(f"do __ks <- for_res (c_children __c) (fun {v} __acc => do __r <- render_src fuel st {v}; Ok (__acc ++ __r)) (@nil N);")
+        return "__ks"
+    bad(e, "render expression")
+
+
+def render_defs(classes):
+    arms = []
+    for cls, kind in CLASS_KIND.items():
+        m = method(classes, cls, "render")
+        body = [s for s in m.body if not (isinstance(s, ast.Expr) and isinstance(s.value, ast.Constant))]
+        if body and isinstance(body[0], ast.If) and ast.unparse(body[0].test) in OVERRIDE_GUARDS and not body[0].orelse \
+                and len(body[0].body) == 1 and isinstance(body[0].body[0], ast.Return):
+            body = body[1:]                      # render() is translated for tag_overrides = None (every call in html_to_nodes.py)
+        if len(body) != 1 or not isinstance(body[0], ast.Return):
+            raise Untranslatable(f"{cls}.render: " + ast.unparse(m)[:200])
+        binds = []
+        term = render_expr(body[0].value, binds)
+        arms.append(f"| {kind} => (* {cls}.render *)\n" + "\n".join(binds + [f"Ok ({term})"]))
+    return ("(* <Class>.render, dispatch on the class of self; tag_overrides = None *)\n"
+            "Fixpoint render_src (fuel : nat) (st : store) (self : nat) {struct fuel} : res str :=\n"
+            "match fuel with O => Raise OutOfFuel | S fuel =>\ndo __c <- get st self;\nmatch c_kind __c with\n"
+            + "\n".join(arms) + "\nend\nend.\n")
+
+
 def method(classes, cls, name):
     for n in classes[cls].body:
         if isinstance(n, ast.FunctionDef) and n.name == name:
@@ -437,7 +585,24 @@ def generate(repo):
     emit("Element.find", "Definition find_src (fuel : nat) (st : store) (self : nat) "
          + params(m, ["ident", "option attrs", "option (list str)", "bool", "bool"]) + " : res (list nat)", f.body())
 
+    # class Attribute
+    out.extend(attribute_defs(classes))
+
+    # render
+    out.append(render_defs(classes))
+
     # class Tree
+    if any(isinstance(n, ast.FunctionDef) and n.name == "__init__" for n in classes["Root"].body):
+        raise Untranslatable("Root overrides __init__")
+    m = method(classes, "Tree", "__init__")
+    if [a.arg for a in m.args.args] != ["self", "name"]:
+        raise Untranslatable("Tree.__init__ parameters")
+    emit("Tree.__init__", "Definition tree_init_src (name : str) : tree", tree_ctor(m, True))
+    m = method(classes, "Tree", "clear")
+    if [a.arg for a in m.args.args] != ["self"]:
+        raise Untranslatable("Tree.clear parameters")
+    emit("Tree.clear (name = self.name, stored by __init__)", "Definition clear_src (t : tree) (name : str) : tree", tree_ctor(m, False))
+
     m = method(classes, "Tree", "last")
     f = Fn(m, "t", tree_expr, tree_stmt, ret_state=False)
     emit("Tree.last", "Definition last_src (t : tree) : res nat", f.body())
